@@ -14,9 +14,8 @@ Print Assumptions C09_no_silent_loss.
 
 (* alignment: on the tree the parser built for a program it read to the end, inside the writer's domain
    (Model/WriterDomain.v: writable = the lexer's token spelling, no parenthesised prefix with a suffix
-   `(f or g)(x)`, no `if c do ... end`, no one-line `if (c) ... else` with an empty else branch, none of the
-   forms the parser accepts although they are not programs: `()`, `{,1}`, `for =1,2 do end`, `if then`,
-   `if f(x) y=1`), the AST writer's walk never raises - no AssertionError, IndexError, AttributeError, no
+   `(f or g)(x)`, no `if c do ... end`, none of the forms the parser accepts although they are not programs:
+   `()`, `{,1}`, `for =1,2 do end`, `if then`, `if f(x) y=1`), the AST writer's walk never raises - no AssertionError, IndexError, AttributeError, no
    ParserError - ends with its cursor at the end of the token list, and its output chunk list is aligned with
    the input: the Code chunks are exactly the significant tokens of ts, in order, each with the token's own
    code (sig_codes ts 0 = the list of (index, code) of the tokens that are not white space, newlines or
@@ -193,28 +192,8 @@ Proof.
   split; vm_compute; reflexivity.
 Qed.
 
-(* the exclusions are needed: on these programs (all parsed to their end, all outside exactly one of the
-   conditions of writable) the walk raises AssertionError.  The first is a finding of this proof: a one-line
-   `if (c) stmt else` whose else branch is empty - the parser drops the branch from the tree, the writer then meets
-   the `else` token where it expects the next statement (replayed on the real luafmt: AssertionError).  The other
-   two are the known findings C09-paren-suffix-assert and C09-shortif-do-body-assert. *)
-Definition C09_empty_else_tokens : list token :=
-  [mkTok CKeyword 0 [105; 102] [105; 102];
-   mkTok CSpace 0 [32] [32];
-   mkTok CSymbol 0 [40] [40];
-   mkTok CName 0 [97] [97];
-   mkTok CSymbol 0 [41] [41];
-   mkTok CSpace 0 [32] [32];
-   mkTok CName 0 [98] [98];
-   mkTok CSymbol 0 [61] [61];
-   mkTok CNumber 0 [49] [49];
-   mkTok CSpace 0 [32] [32];
-   mkTok CKeyword 0 [101; 108; 115; 101] [101; 108; 115; 101];
-   mkTok CNewline 0 [10] [10];
-   mkTok CName 0 [99] [99];
-   mkTok CSymbol 0 [61] [61];
-   mkTok CNumber 0 [50] [50];
-   mkTok CNewline 0 [10] [10]].
+(* the exclusions are needed: on these programs (parsed to their end, each outside exactly one of the conditions of
+   writable) the walk raises AssertionError: the known findings C09-paren-suffix-assert and C09-shortif-do-body-assert. *)
 Definition C09_paren_prefix_tokens : list token :=
   [mkTok CSymbol 0 [40] [40];
    mkTok CName 0 [102] [102];
@@ -251,28 +230,21 @@ Definition C09_refutes (ts : list token) : bool :=
   | Err _ => false
   end.
 
-Theorem C09_aligned_empty_short_else_refuted :
-  C09_refutes C09_empty_else_tokens = true /\
-  exists root e, lua_parse C09_empty_else_tokens = Ok (root, e) /\ plain_tokens C09_empty_else_tokens = true /\
-    no_paren_prefix root = true /\ no_if_do C09_empty_else_tokens root = true /\ strict root = true /\ no_empty_short_else root = false.
-Proof.
-  split; [vm_compute; reflexivity|].
-  destruct (lua_parse C09_empty_else_tokens) as [[root e]|] eqn:E; [|vm_compute in E; discriminate E].
-  exists root, e. split; [reflexivity|]. vm_compute in E. injection E as <- <-. vm_compute. repeat split; reflexivity.
-Qed.
-
 Theorem C09_aligned_paren_prefix_refuted : C09_refutes C09_paren_prefix_tokens = true.
 Proof. vm_compute. reflexivity. Qed.
 
 Theorem C09_aligned_if_do_refuted : C09_refutes C09_if_do_tokens = true.
 Proof. vm_compute. reflexivity. Qed.
 
-(* ... and when nothing follows the empty else branch the walk does not raise: it stops short, to_lines does not
-   compare the cursor with the end of the token list, and the program is written without its `else` (and what
-   follows it) although the parser had read it to the end - a silent loss that the end-of-input check of
-   C09_no_silent_loss does not catch (replayed on the real luafmt: `if (a) b=1 else\n` is written as `if (a) b=1 `). *)
-Definition C09_lost_else_tokens : list token :=
-  [mkTok CKeyword 0 [105; 102] [105; 102];
+
+(* the one-line if with an empty else branch (`if (a) b=1 else`, which the parser accepts and whose else branch it
+   drops from the tree) is inside the domain since the writers look for the `else` token themselves (fix b221330;
+   before it the writers raised AssertionError or, at the end of the program, silently wrote the program without its
+   `else`): both writers reproduce it *)
+Definition C09_empty_else_tokens : list token :=
+  [mkTok CKeyword 0 [100; 111] [100; 111];
+   mkTok CSpace 0 [32] [32];
+   mkTok CKeyword 0 [105; 102] [105; 102];
    mkTok CSpace 0 [32] [32];
    mkTok CSymbol 0 [40] [40];
    mkTok CName 0 [97] [97];
@@ -283,13 +255,29 @@ Definition C09_lost_else_tokens : list token :=
    mkTok CNumber 0 [49] [49];
    mkTok CSpace 0 [32] [32];
    mkTok CKeyword 0 [101; 108; 115; 101] [101; 108; 115; 101];
-   mkTok CNewline 0 [10] [10]].
+   mkTok CSpace 0 [32] [32];
+   mkTok CSymbol 0 [59] [59];
+   mkTok CSpace 0 [32] [32];
+   mkTok CComment 0 [45; 45; 32; 120] [45; 45; 32; 120];
+   mkTok CNewline 0 [10] [10];
+   mkTok CKeyword 0 [101; 110; 100] [101; 110; 100];
+   mkTok CSpace 0 [32] [32];
+   mkTok CKeyword 0 [105; 102] [105; 102];
+   mkTok CSpace 0 [32] [32];
+   mkTok CSymbol 0 [40] [40];
+   mkTok CName 0 [97] [97];
+   mkTok CSymbol 0 [41] [41];
+   mkTok CSpace 0 [32] [32];
+   mkTok CName 0 [98] [98];
+   mkTok CSymbol 0 [61] [61];
+   mkTok CNumber 0 [49] [49];
+   mkTok CSpace 0 [32] [32];
+   mkTok CKeyword 0 [101; 108; 115; 101] [101; 108; 115; 101]].
 
-Theorem C09_silent_loss_empty_short_else_refuted :
-  exists root e cs p, lua_parse C09_lost_else_tokens = Ok (root, e) /\ consumed C09_lost_else_tokens e = true /\
-    writer_chunks C09_lost_else_tokens (view root) = Ok (cs, p) /\ (p <? zlen C09_lost_else_tokens) = true /\
-    writer_text echo_spaces C09_lost_else_tokens (view root) = Ok ("if (a) b=1 "%bs : list Z).
+Example C09_empty_short_else_in_domain :
+  exists root e, lua_parse C09_empty_else_tokens = Ok (root, e) /\ consumed C09_empty_else_tokens e = true /\
+    writable C09_empty_else_tokens root = true /\
+    writer_text echo_spaces C09_empty_else_tokens (view root) = Ok (flat_map tcode C09_empty_else_tokens).
 Proof.
-  eexists _, _, _, _. split; [vm_compute; reflexivity|]. split; [vm_compute; reflexivity|]. split; [vm_compute; reflexivity|].
-  split; vm_compute; reflexivity.
+  eexists _, _. split; [vm_compute; reflexivity|]. split; [vm_compute; reflexivity|]. split; vm_compute; reflexivity.
 Qed.
